@@ -1,9 +1,163 @@
-/- C11 driver: not written yet -/
+/-
+  C11 driver: replays what the real library did under "raise cancel at the k-th visit of site s"
+  (harness/cancel.cpp, digested by tools/checks/c11.py) through the models
+  LibfiveModel/Pool.lean (worker-pool transition system, branch counter protocol) and
+  LibfiveModel/Render.lean (control flow of Mesh::render).
+
+  input:
+    case <id> alg <dc|simplex|hybrid> n <children> workers <w> L <root level> mode <controlled|free>
+    pool <tokens…>      build-phase trace, controlled mode only; tokens (space separated):
+                          l<w>  loop      p<w>:<c>  pop     u<w>:<child>:<0|1>  push (1 = local)
+                          e<w>:<a|t|f> eval (amb/term/leaf)   c<w>:<0|1> collect   x<w> exit   X cancel
+    branch <phase> <controlled 0|1> <arrivals expected> <flags…>    pending protocol of one branch
+    counts <amb cells> <collect events> <collect last=1> <pushed> <popped>   (build phase, any mode, uncancelled)
+    render <bn> <in> <wn> <raise clock | none> <null|complete|partial>
+    end
+-/
 import Driver.Parse
+import LibfiveModel.Pool
+import LibfiveModel.Render
+open Libfive
 
 namespace Driver.C11
 
+structure St where
+  id : String := "?"
+  alg : Render.Alg := .dc
+  n : Nat := 8
+  workers : Nat := 1
+  L : Nat := 0
+  controlled : Bool := false
+  out : Array String := #[]
+
+def St.say (s : St) (ok : Bool) (what : String) (detail : String := "") : St :=
+  { s with out := s.out.push (if ok then s!"ok case {s.id} {what}" else s!"MISMATCH case {s.id} {what} {detail}") }
+
+def algOf : String → Render.Alg
+  | "simplex" => .simplex
+  | "hybrid" => .hybrid
+  | _ => .dc
+
+/-- rebuild the function fields from tables every so often: closures chained by `upd` would make
+    every lookup linear in the number of steps (identity on the ids in use) -/
+def compact (s : Pool.S) (maxId maxW : Nat) : Pool.S :=
+  let lv := Array.ofFn (n := maxId + 1) fun i => s.level i.1
+  let pa := Array.ofFn (n := maxId + 1) fun i => s.parent i.1
+  let ki := Array.ofFn (n := maxId + 1) fun i => s.kids i.1
+  let pe := Array.ofFn (n := maxId + 1) fun i => s.pending i.1
+  let ac := Array.ofFn (n := maxW + 1) fun i => s.act i.1
+  let lvd := s.level (maxId + 1); let pad := s.parent (maxId + 1); let kid := s.kids (maxId + 1)
+  let ped := s.pending (maxId + 1); let acd := s.act (maxW + 1)
+  { s with level := fun i => lv.getD i lvd, parent := fun i => pa.getD i pad, kids := fun i => ki.getD i kid,
+           pending := fun i => pe.getD i ped, act := fun i => ac.getD i acd }
+
+def splitColon (t : String) : List String := ((t.drop 1).toString.splitOn ":")
+
+/-- one trace token → the model events it stands for, given the current state (the hooks do not
+    report failed pops / which exit path was taken; both are determined by the worker's state) -/
+def expand (s : Pool.S) (t : String) : Option (List Pool.Ev) :=
+  let f := splitColon t
+  match t.front, f with
+  | 'X', _ => some [.cancel]
+  | 'l', [w] =>
+    let w := nat! w
+    if s.act w = .inLoop then some [.noTask w, .loop w] else some [.loop w]
+  | 'p', [w, c] => some [.pop (nat! w) (nat! c)]
+  | 'u', [w, c, loc] => some [.push (nat! w) (nat! c) (loc == "1")]
+  | 'e', [w, k] => some [.evalDone (nat! w) (if k == "a" then .amb else if k == "t" then .term else .leaf)]
+  | 'c', [w, l] => some [.collect (nat! w) (l == "1")]
+  | 'x', [w] =>
+    let w := nat! w
+    match s.act w with
+    | .ascend _ => some [.exitRoot w]
+    | .inLoop => some [.noTask w, .exitLoop w]
+    | _ => some [.exitLoop w]
+  | _, _ => none
+
+def replay (s0 : Pool.S) (toks : List String) (maxId maxW : Nat) : Except String Pool.S := do
+  let mut s := s0
+  let mut i := 0
+  for t in toks do
+    match expand s t with
+    | none => throw s!"unparsable token {t} at {i}"
+    | some evs =>
+      for e in evs do
+        match Pool.step s e with
+        | some s' => s := s'
+        | none => throw s!"step rejected token {t} (event {repr e}) at {i}"
+    i := i + 1
+    if i % 48 == 0 then s := compact s maxId maxW
+  return s
+
+/-- A worker evaluates its first `while (!done && !cancel)` before it reaches its first hook point,
+    i.e. at an unknown moment between thread creation and that point.  The flags only go from false
+    to true, so a first check that passed would also have passed at the start of the phase: the
+    first `loop` token of every worker is replayed at the front. -/
+def hoistFirstLoops (toks : List String) : List String :=
+  let (seen, firsts, rest) := toks.foldl (fun (acc : List String × List String × List String) t =>
+    let (seen, firsts, rest) := acc
+    match t.front, splitColon t with
+    | 'l', [w] => if seen.contains w then (seen, firsts, t :: rest) else (w :: seen, t :: firsts, rest)
+    | 'X', _ => (seen, firsts, t :: rest)
+    | _, w :: _ => (if seen.contains w then seen else w :: seen, firsts, t :: rest)
+    | _, _ => (seen, firsts, t :: rest)) ([], [], [])
+  let _ := seen
+  firsts.reverse ++ rest.reverse
+
+def maxIds (toks : List String) : Nat × Nat :=
+  toks.foldl (fun (a : Nat × Nat) t =>
+    match splitColon t with
+    | [w] => (a.1, max a.2 (nat! w))
+    | w :: c :: _ => (if t.front == 'p' || t.front == 'u' then max a.1 (nat! c) else a.1, max a.2 (nat! w))
+    | _ => a) (0, 0)
+
+def handle (s : St) (line : String) : St :=
+  match words line with
+  | ["case", id, "alg", a, "n", n, "workers", w, "L", l, "mode", m] =>
+    { s with id := id, alg := algOf a, n := nat! n, workers := nat! w, L := nat! l, controlled := m == "controlled" }
+  | "pool" :: toks =>
+    let (maxId, maxW) := maxIds toks
+    match replay (Pool.S.init s.n s.workers s.L) (hoistFirstLoops toks) maxId maxW with
+    | .error e => s.say false "pool-trace" e
+    | .ok fin =>
+      let s := s.say true s!"pool-trace {toks.length}"
+      -- consequences of the theorems on the final state
+      let queued := fin.bag ++ fin.loc.map (·.2)
+      let conserved := (fin.pushed.length == fin.popped.length + queued.length) &&
+        fin.pushed.all (fun c => fin.popped.contains c || queued.contains c)
+      let s := s.say conserved "no-lost-task" s!"pushed {fin.pushed.length} popped {fin.popped.length} queued {queued.length}"
+      let allExited := (List.range (maxW + 1)).all fun w => fin.act w == .exited || fin.act w == .idle
+      let s := s.say (fin.done && allExited) "workers-left-loop"
+      if fin.cancel then s
+      else s.say (queued.isEmpty && fin.popped.length == fin.pushed.length) "uncancelled-all-popped"
+  | "branch" :: phase :: ctl :: exp :: flags =>
+    let exp := nat! exp
+    let ones := (flags.filter (· == "1")).length
+    let okCount := flags.length == exp && ones == 1
+    -- the model: `exp` children arrive at a counter initialised to exp-1, in this order
+    let tr : List Pool.BEv := (List.range exp).flatMap fun i => [.install i, .dec i]
+    let model := match Pool.brun (Pool.BState.init exp) tr with
+      | some b => b.collectors == [exp - 1]
+      | none => false
+    let okLast := ctl != "1" || flags.getLast? == some "1"
+    s.say (okCount && model && okLast) s!"branch-{phase}" s!"expected {exp} arrivals, flags {flags}"
+  | ["counts", amb, coll, last, pushed, popped] =>
+    let s := s.say (nat! coll == s.n * nat! amb && nat! last == nat! amb) "collect-counts" s!"amb {amb} collect {coll} last {last}"
+    s.say (nat! pushed == nat! popped && nat! pushed == s.n * nat! amb + 1) "pushed-eq-popped" s!"pushed {pushed} popped {popped}"
+  | ["render", bn, ixn, wn, raise, real] =>
+    let obs := Render.raisedAt (if raise == "none" then none else some (nat! raise))
+    let sz : Render.Sizes := ⟨nat! bn, nat! ixn, nat! wn⟩
+    let m := Render.render s.alg sz obs
+    let mf := Render.renderFixed s.alg sz obs
+    let show_ (r : Render.Result) : String := match r with
+      | none => "null" | some true => "complete" | some false => "partial"
+    let s := s.say (show_ m == real) "render-flow" s!"model {show_ m} real {real} sizes {bn} {ixn} {wn} raise {raise}"
+    let s := s.say (mf == none || mf == some true) "render-repaired-all-or-nothing"
+    if m == some false then { s with out := s.out.push s!"agree-defect case {s.id} render partial; repaired flow gives {show_ mf}" }
+    else s
+  | _ => s
+
 def run (_args : List String) (lines : Array String) : Array String :=
-  #[s!"MISMATCH driver-not-implemented {lines.size}"]
+  (lines.foldl handle {}).out
 
 end Driver.C11
